@@ -40,6 +40,9 @@ class CollectionValue(GenericValue):
             elements = [None] * len(self._old_value)
         else:
             assert isinstance(self._ast_node, ast.List)
+            if any(isinstance(e, ast.Starred) for e in self._ast_node.elts):
+                # star-expressions are not supported inside snapshots
+                return
             elements = self._ast_node.elts
 
         for old_value, old_node in zip(self._old_value, elements):
